@@ -18,6 +18,7 @@ mod corpus;
 mod fmt;
 mod runner;
 mod c19;
+mod c20;
 mod util;
 
 fn main() {
@@ -89,6 +90,10 @@ fn main() {
         "c06" => {
             let scratch = args.get(5).cloned().unwrap_or_else(|| "/verif/.build/scratch".to_string());
             c06::run(&mut out, tier, seed, &scratch)
+        }
+        "c20" => {
+            let scratch = args.get(5).cloned().unwrap_or_else(|| "/verif/.build/scratch".to_string());
+            c20::run(&mut out, tier, seed, &scratch)
         }
         "c13" => {
             let scratch = args.get(5).cloned().unwrap_or_else(|| "/verif/.build/scratch".to_string());
